@@ -10,7 +10,7 @@ import glob, json, os, sys, tempfile, types
 import common
 from common import cz, cstr, clist, cpair, cbool, copt
 
-IMPORTS = ["Base", "Consts", "Coord"]
+IMPORTS = ["Base", "Consts", "Coord", "RefPatchProofs"]
 W = 20            # flank kept on each side of a variant inside its aligned block
 W_SNP = 7         # ... of a single-nucleotide substitution
 OWN_COMP = {"A": "T", "T": "A", "C": "G", "G": "C"}     # the harness' own complement (predicate side)
@@ -382,6 +382,19 @@ def check_db(chk, db, tab, terms, jobs):
                  f"o_list (o_opt OZ) (map (chr_to_ref {al}) {clist(probe_chr, cz)}); "
                  f"o_list (o_opt OZ) (map (ref_to_chr {al}) {clist(probe_ref, cz)})]")
     jobs.append(("maps", db, (probe_chr, probe_ref)))
+    # ---- reference patches: the model's apply_patches / patched_base on the WRITTEN sequence against Gene.seq
+    patches = [(int(p), str(n)) for p, n in (db.yml["reference"].get("patches") or [])]
+    if patches:
+        raw = db.yml["reference"]["seq"].replace("\n", "")
+        cps = clist(patches, lambda pn: cpair(cz(pn[0]), cz(ord(pn[1]))))
+        if len(raw) <= 4000:
+            terms.append(f"OL [OZ 0; o_opt o_str (apply_patches {cstr(raw)} {cps})]")
+            jobs.append(("patches", db, ("whole", None)))
+        else:
+            sites = sorted({q for p, _ in patches for q in (p - 2, p - 1, p) if 0 <= q < len(raw)} | {rng.randrange(len(raw)) for _ in range(20)})
+            terms.append(f"OL [OZ 1; o_str (map (fun ir => patched_base (snd ir) (fst ir) {cps}) "
+                         f"{clist(sites, lambda q: cpair(cz(q), cz(ord(raw[q]))))})]")
+            jobs.append(("patches", db, ("sites", sites)))
     # ---- lookup: gene[i], gene[i:j] around every edge
     edges = sorted({s, e} | {c for c, _, _ in db.cruns} | {c + n for c, _, n in db.cruns})
     for x in edges[:12]:
@@ -587,6 +600,22 @@ def decode_jobs(chk, jobs, vals):
             ir = [g.ref_to_chr.get(k) for k in probe_ref]
             if mr != ir:
                 chk.mismatch("ref_to_chr", dict(ident, at=probe_ref), mr, ir)
+        elif kind == "patches":
+            how, sites = x
+            chk.case(db.stream + ":patches", [db.label, db.build, "patches"], nontrivial=len(db.yml["reference"]["patches"]) >= 2,
+                     sample={"db": db.label, "patches": db.yml["reference"]["patches"]})
+            chk.count(db.stream + ":patches", f"patches={min(len(db.yml['reference']['patches']), 4)}")
+            if how == "whole":
+                mv = common.dopt(val[1], common.dstr)
+                iv = g.seq
+            else:
+                mv = common.dstr(val[1])
+                iv = "".join(g.seq[q] for q in sites)
+            if mv != iv:
+                k = next((k for k in range(min(len(mv or ""), len(iv))) if mv[k] != iv[k]), None)
+                chk.mismatch("reference-patches", dict(ident, patches=db.yml["reference"]["patches"]),
+                             {"first_difference_at": k if how == "whole" else sites[k] if k is not None else None, "model": (mv or "")[max(0, (k or 0) - 3):(k or 0) + 4]},
+                             {"implementation": iv[max(0, (k or 0) - 3):(k or 0) + 4]})
         elif kind == "lookup":
             i, j, pts = x
             ms, mp = common.dstr(val[0]), common.dstr(val[1])
